@@ -323,6 +323,17 @@ def _check_score_expr(ctx, f, kind, key, score, loopvars, stmt, raw=None):
             ra, rb = (rinner.args if isinstance(rinner, ast.Call) and len(rinner.args) == 2 else (a, b))
             ok = ok and cand is not None and mentions(a, cand) and expr_side(ra) == 'L' and expr_side(rb) == 'R' \
                 and "['cached_tokens'][%s]" % cand in U(a)
+            if ok:
+                # the token cache exists only when build() was asked to keep it
+                builds = [x for x in ast.walk(a) if isinstance(x, ast.Call) and call_name(x) == 'build']
+                okc = bool(builds)
+                for x in builds:
+                    kws = {k.arg: k.value for k in x.keywords}
+                    v = kws.get('cache_tokens', x.args[1] if len(x.args) > 1 else None)
+                    okc = okc and isinstance(v, ast.Constant) and v.value is True
+                ctx.check('R-VERIFY/sim', f, key + ' token cache', okc,
+                          'the left tokens are read from `cached_tokens` of an index built without cache_tokens=True: `%s`' % U(a)[:140],
+                          stmt, sample='build(.., cache_tokens=True)')
         ctx.check('R-VERIFY/sim', f, key, ok,
                   'the score is not get_sim_function(sim_measure_type)(<left tokens of the candidate>, <right tokens of '
                   'the current row>): `%s`' % U(inner)[:160], stmt, sample=U(inner)[:120])
@@ -347,6 +358,17 @@ def _check_score_expr(ctx, f, kind, key, score, loopvars, stmt, raw=None):
             lefts = [x for x in (a, b) if 'size_cache' in U(x) and cand is not None and ('[%s]' % cand) in U(x)]
             rights = [x for x in (a, b) if x not in lefts and expr_side(x) == 'R']
             ok = same and len(lefts) == 1 and len(rights) == 1
+            if ok:
+                # the size cache exists only when the index was asked to keep it
+                ctors = [x for x in ast.walk(lefts[0]) if isinstance(x, ast.Call) and call_name(x) == 'InvertedIndex']
+                flag_ok = bool(ctors)
+                for x in ctors:
+                    kws = {k.arg: k.value for k in x.keywords}
+                    v = kws.get('cache_size_flag', x.args[3] if len(x.args) > 3 else None)
+                    flag_ok = flag_ok and isinstance(v, ast.Constant) and v.value is True
+                ctx.check('R-VERIFY/sim', f, key + ' size cache', flag_ok,
+                          'the left token count is read from `size_cache` of an index that was not built with '
+                          'cache_size_flag=True: `%s`' % U(lefts[0])[:140], stmt, sample='InvertedIndex(.., cache_size_flag=True)')
         ctx.check('R-VERIFY/sim', f, key, ok,
                   'the score is not overlap / min(<right token count>, <left candidate token count>): `%s`'
                   % U(score)[:160], stmt, sample=U(score)[:120])
